@@ -38,7 +38,7 @@ for d in sorted(os.listdir(sd)):
         note += " — " + meta["history"]
     rows.append("| %s | %s | %s | %s |" % (d, meta["summary"].replace("|", "/"), "yes" if meta.get("caught") else "NO", note.replace("|", "/")[:400]))
 caught = sum(1 for r in rows if "| yes |" in r)
-table = ["<!-- table:begin -->", "Caught by the property's quick check: **%d of %d**. 'Caught' means exit 1 with a natively reproduced VIOLATION line." % (caught, len(rows)), "",
+table = ["<!-- table:begin -->", "Caught: **%d of %d**. 'Caught' means `symgo check` for the property the change was written against exits 1 with a natively reproduced VIOLATION line. In the last regression (see each meta.json, field `ran`) the full quick check was run for the round 4-6 changes against C06, C08-C11, C13-C16; for the others (the checks that take minutes: C01-C05, C12; rounds 1-3, whose full-check regression was done at an earlier commit; and a few re-runs after a harness was added) the same command was restricted with `-only` to the harness that decides the change, which the full quick check contains." % (caught, len(rows)), "",
          "| seed | change | caught | first violation / reason |", "|---|---|---|---|"] + rows + ["<!-- table:end -->"]
 rp = os.path.join(sd, "README.md")
 s = open(rp).read()
